@@ -17,6 +17,15 @@
 #include <sys/wait.h>
 #include <unistd.h>
 
+// coverage build only (tools/coverage.sh compiles with -DSIM_COV=1): run children leave through _exit, which skips gcov's
+// atexit dump
+#if defined(SIM_COV) && SIM_COV
+extern "C" void __gcov_dump(void);
+#define SIM_COV_DUMP() __gcov_dump()
+#else
+#define SIM_COV_DUMP() ((void)0)
+#endif
+
 namespace sim {
 
 // ---------------------------------------------------------------------------------------------
@@ -463,6 +472,7 @@ static Child spawn(const RunSpec& spec)
             write_all(p[1], std::string{"V\tHARNESS\tharness-exception\tharness-exception\t-1\t"} + field_escape(e.what()) + "\n");
         }
         finish_child(ctx);
+        SIM_COV_DUMP();
         _exit(0);
     }
     close(p[1]);
